@@ -354,8 +354,29 @@ def double_match_cell(a, b, c) -> str | None:
     return None
 
 
+def left_double_match_cell(a, c) -> str | None:
+    """Known false negative behind another transitivity failure among callables (F-C08k): a positional-or-keyword
+    parameter of the *right* callable is matched in the left one by two different parameters — by name (through
+    `**kwargs` or a parameter at another position) and by position (a differently named positional parameter);
+    `callable_corresponding_argument` cannot merge them, picks the by-name candidate, whose position differs from
+    the right's, and `a <: c` is rejected although both `a <: b` and `b <: c` hold for a `b` with `*args`."""
+    from mypy.types import CallableType, get_proper_type
+    pa, pc = get_proper_type(a), get_proper_type(c)
+    if not (isinstance(pa, CallableType) and isinstance(pc, CallableType)):
+        return None
+    for ra in pc.formal_arguments():
+        if ra.name is None or ra.pos is None:
+            continue
+        by_name, by_pos = pa.argument_by_name(ra.name), pa.argument_by_position(ra.pos)
+        mergeable = (by_name is not None and by_pos is not None and not (by_name.required or by_pos.required)
+                     and by_pos.name is None and by_name.pos is None)
+        if by_name is not None and by_pos is not None and by_name != by_pos and not mergeable and by_name.pos != ra.pos:
+            return "callable≤callable≤callable[right parameter matched in the left by name and by position by different parameters]"
+    return None
+
+
 def trans_cell(a, b, c) -> str:
-    dm = double_match_cell(a, b, c)
+    dm = double_match_cell(a, b, c) or left_double_match_cell(a, c)
     if dm:
         return dm
     if kind(b) == "callable" and kind(c) == "builtins.function":
